@@ -29,6 +29,8 @@ type Obligation struct {
 	Model   []ReplayVal
 	Prefix  []int
 	MapOrder int
+	Pkg     string         // the job the obligation belongs to (set by runJobs)
+	Params  map[string]int
 }
 
 type ReplayVal struct {
